@@ -241,23 +241,32 @@ def from_filename(seq, filename):
 
 # ---- glyph names
 
-_CPS = [0x67, 0x41, 0x7A, 0x30, 0x39, 0x1F600, 0x1F3FB, 0x200D, 0xFE0F, 0xA9, 0x2198, 0xE000, 0x10FFFF, 0x23, 0x2A, 0xABCDE, 0xE9, 0xC5, 0x3B1, 0x5B57, 0xAA, 0x5F, 0x2E]
+_CPS = [0x67, 0x41, 0x7A, 0x30, 0x39, 0x1F600, 0x1F3FB, 0x200D, 0xFE0F, 0xA9, 0x2198, 0xE000, 0x10FFFF, 0x23, 0x2A, 0xABCDE, 0xE9, 0xC5, 0x3B1, 0x5B57, 0xAA, 0x5F, 0x2E, 0x0A, 0x0F, 0x61, 0x66, 0x00, 0x09, 0x10]
 
 
 def name_token_problems():
-    """every code point: one ASCII letter, or lower-case hex of the code point"""
+    """the token lemma behind "names of distinct sequences are distinct and legal", over every
+    code point (exhaustive): a token is made of ASCII letters and digits only (no '_', so a
+    name splits back into its tokens), an ASCII letter is its own token, and no two code
+    points share a token"""
     from nanoemoji.glyph import _name
     import string
 
     letters = set(string.ascii_letters)
+    ok_chars = set(string.ascii_letters + string.digits)
     bad = []
+    seen = {}
     for cp in range(0x110000):
         t = _name(cp)
-        want = chr(cp) if chr(cp) in letters else "%x" % cp
-        if t != want:
-            bad.append((cp, t))
-            if len(bad) > 5:
-                break
+        if not t or not set(t) <= ok_chars:
+            bad.append(("illegal token", cp, t))
+        if chr(cp) in letters and t != chr(cp):
+            bad.append(("letter not kept", cp, t))
+        if t in seen:
+            bad.append(("two code points, one token", hex(seen[t]), hex(cp), t))
+        seen.setdefault(t, cp)
+        if len(bad) > 8:
+            break
     return bad
 
 
@@ -403,10 +412,18 @@ def gen_masters(rng):
     for m in range(n):
         pos = {t: (d if m == 0 else d + rng.choice([1, 50, 300]) * (m + (i + 1) * 0.5)) for i, (t, _, d) in enumerate(axes)}
         masters.append(("m%d" % m, "Style%d" % m, pos))
-    return {"axes": axes, "masters": masters}
+    # source file names: legal names with characters that mean something to glob / TOML / the
+    # shell (every master has the same names, as a variable build requires)
+    pool = ["emoji_u1f601[1].svg", "emoji_u1f602 copy.svg", "emoji_u1f603?.svg", "emoji_u1f604{a,b}.svg", "emoji_u1f605#x.svg", "emoji_u1f606'q'.svg", "emoji_u1f607=.svg", "emoji_u1f608!.svg", "u1f609.svg"]
+    files = ["emoji_u1f600.svg"] + rng.sample(pool, rng.randint(0, 3))
+    return {"axes": axes, "masters": masters, "files": files, "explicit": rng.random() < 0.5, "derived_too": False}
 
 
-def masters_round_trip(axes, masters):
+def k11_witness():
+    return {"axes": [("wght", "Weight", 400)], "masters": [("thin", "Thin", {"wght": 100}), ("regular", "Regular", {"wght": 400})], "files": ["emoji_u1f600.svg"], "explicit": False, "derived_too": True}
+
+
+def masters_round_trip(axes, masters, files=("emoji_u1f600.svg",), explicit=False, derived_too=False):
     from nanoemoji import config as C
 
     with tempfile.TemporaryDirectory(prefix="verif_cfg_") as d:
@@ -415,8 +432,11 @@ def masters_round_trip(axes, masters):
             toml_text += f'[axis.{tag}]\nname = "{name}"\ndefault = {default}\n'
         for name, style, pos in masters:
             os.makedirs(os.path.join(d, name))
-            open(os.path.join(d, name, "emoji_u1f600.svg"), "w").write("<svg/>")
-            toml_text += f'[master.{name}]\nstyle_name = "{style}"\nsrcs = ["{name}/*.svg"]\n[master.{name}.position]\n'
+            for fn in files:
+                open(os.path.join(d, name, fn), "w").write("<svg/>")
+            # given by a pattern, or each file by its literal name
+            srcs_toml = ", ".join("'" + f"{name}/{fn}" + "'" if "'" not in fn else '"' + f"{name}/{fn}" + '"' for fn in files) if explicit else f'"{name}/*.svg"'
+            toml_text += f'[master.{name}]\nstyle_name = "{style}"\nsrcs = [{srcs_toml}]\n[master.{name}.position]\n'
             for tag, v in pos.items():
                 toml_text += f"{tag} = {v}\n"
         p = Path(d) / "c.toml"
@@ -426,6 +446,22 @@ def masters_round_trip(axes, masters):
         p2 = Path(d) / "resolved.toml"
         C.write(p2, first)
         second = C.load(p2)
+        # the configuration the driver writes for the step that builds one master's UFO
+        # (nanoemoji.write_ufo_build): this master only, output_file = the master's UFO
+        ufo_diffs = []
+        for m in first.masters:
+            uc = first._replace(output_file=m.output_ufo, masters=(m,))
+            p3 = Path(d) / "ufo.toml"
+            C.write(p3, uc)
+            back = C.load(p3)
+            for fld in uc._fields:
+                a_, b_ = getattr(uc, fld), getattr(back, fld)
+                if fld == "masters":
+                    # (output_ufo is derived from output_file on load: compared only on request)
+                    strip = (lambda ms: [mm._replace(output_ufo="") for mm in ms]) if not derived_too else (lambda ms: list(ms))
+                    a_, b_ = strip(a_), strip(b_)
+                if _norm(fld, a_) != _norm(fld, b_):
+                    ufo_diffs.append((m.name, fld, str(a_)[:120], str(b_)[:120]))
     sem = lambda c: (
         sorted((a.axisTag, a.name, a.default) for a in c.axes),
         [(m.name, m.style_name, sorted((ap.axisTag, ap.position) for ap in m.position)) for m in c.masters],
@@ -435,4 +471,15 @@ def masters_round_trip(axes, masters):
         [(n, s, sorted((t, float(v)) for t, v in pos.items())) for n, s, pos in masters],
     )
     as_float = lambda s_: (sorted((t, n, float(dflt)) for t, n, dflt in s_[0]), [(n, s, sorted((t, float(v)) for t, v in pos)) for n, s, pos in s_[1]])
-    return {"loaded_is_what_was_written": as_float(sem(first)) == given, "reloaded_equals_loaded": sem(first) == sem(second), "default_master": first.default().name == second.default().name}
+    want_sources = [sorted(os.path.join(os.path.realpath(d), n, fn) for fn in files) for n, _, _ in masters]
+    real = lambda c: [sorted(os.path.realpath(str(p_)) for p_ in m.sources) for m in c.masters]
+    return {
+        "loaded_is_what_was_written": as_float(sem(first)) == given,
+        "reloaded_equals_loaded": sem(first) == sem(second),
+        "default_master": first.default().name == second.default().name,
+        # every source file, whatever its (legal) name, is a source after the first load and
+        # still after the hand-off through the resolved TOML
+        "sources_first": real(first) == want_sources,
+        "ufo_config_diffs": ufo_diffs,
+        "sources_reloaded": [list(map(str, m.sources)) for m in first.masters] == [list(map(str, m.sources)) for m in second.masters] and first.source_names == second.source_names,
+    }
